@@ -113,6 +113,15 @@ StepRetOK  == RetAgrees(ev', [ret |-> ret', pan |-> pan'], [ret |-> aret', pan |
 StepGrowOK == ~IsClear(ev') =>                                                     \* C16
                 Len(m'.a) = MaxI(Len(m.a), Cardinality(Reach(m')))
 StepShapeOK == ShapeKeeps(ev') => Shape(m', 1) = Shape(m, 1)                  \* C15
+\* the arena machine refines the counter abstraction of Accounting.tla: an event that adds d nodes is d
+\* Alloc steps (free slots first), one that removes d nodes is d Free steps
+StepAcctOK == ~IsClear(ev') =>
+    LET d == Cardinality(Reach(m')) - Cardinality(Reach(m)) IN
+    IF d >= 0 THEN /\ Len(m'.f) = MaxI(0, Len(m.f) - d)
+                   /\ Len(m'.a) = Len(m.a) + MaxI(0, d - Len(m.f))
+              ELSE /\ Len(m'.f) = Len(m.f) - d
+                   /\ Len(m'.a) = Len(m.a)
+PropAcct  == [][StepAcctOK]_vars
 PropRet   == [][StepRetOK]_vars
 PropGrow  == [][StepGrowOK]_vars
 PropShape == [][StepShapeOK]_vars
